@@ -403,7 +403,7 @@ pub fn gen_atom(rng: &mut Rng, p: &Pools, allow_invalid_extra: bool) -> Term {
         0..=3 => {
             let k = rng.below(3);
             loop {
-                let nops = if rng.chance(1, 20) { 10 } else { 9 };
+                let nops = if rng.chance(1, 6) { 10 } else { 9 };   // 9 = `===`, which only the typed constructor can express
                 let op = rng.below(nops);
                 let text = *rng.pick(&p.versions);
                 let (_, sym, star) = VOPS[op];
